@@ -107,13 +107,13 @@ impl PlainTime {
     }
 
     /// Specification equivalent to `AddTime`
-    pub(crate) fn add_normalized_time_duration(&self, norm: NormalizedTimeDuration) -> (i32, Self) {
+    pub(crate) fn add_normalized_time_duration(&self, norm: NormalizedTimeDuration) -> (i64, Self) {
         // 1. Set second to second + NormalizedTimeDurationSeconds(norm).
         let second = i64::from(self.second()) + norm.seconds();
         // 2. Set nanosecond to nanosecond + NormalizedTimeDurationSubseconds(norm).
         let nanosecond = i32::from(self.nanosecond()) + norm.subseconds();
         // 3. Return BalanceTime(hour, minute, second, millisecond, microsecond, nanosecond).
-        let (day, balance_result) = IsoTime::balance(
+        let (day, balance_result) = IsoTime::balance_with_day_carry(
             self.hour().into(),
             self.minute().into(),
             second,
